@@ -20,14 +20,14 @@ def clsOfName? : String → Option Cls
   | "string" => some .str | "bytes" => some .bytes | "list" => some .list | "map" => some .map
   | "null_type" => some .null | "timestamp" => some .ts | "duration" => some .dur | "type" => some .type
   | "pyfloat" => some .pyfloat | "pystr" => some .pystr | "pybytes" => some .pybytes | "pylist" => some .pylist
-  | "pytimedelta" => some .pytimedelta | "pybool" => some .pybool | "pyint" => some .pyint
+  | "pytimedelta" => some .pytimedelta | "pybool" => some .pybool | "pyint" => some .pyint | "pydatetime" => some .pydatetime
   | _ => none
 
 def Cls.name : Cls → String
   | .int => "int" | .uint => "uint" | .dbl => "double" | .bool => "bool" | .str => "string" | .bytes => "bytes"
   | .list => "list" | .map => "map" | .null => "null_type" | .ts => "timestamp" | .dur => "duration" | .type => "type"
   | .pyfloat => "pyfloat" | .pystr => "pystr" | .pybytes => "pybytes" | .pylist => "pylist"
-  | .pytimedelta => "pytimedelta" | .pybool => "pybool" | .pyint => "pyint"
+  | .pytimedelta => "pytimedelta" | .pybool => "pybool" | .pyint => "pyint" | .pydatetime => "pydatetime"
 
 def takeNats : Nat → List String → Option (List Nat × List String)
   | 0, rest => some ([], rest)
